@@ -9,6 +9,7 @@ ones the variable's own label indexing would compute: the two routes coincide.
 import DimModel.Lib.GetSet
 import DimModel.Lib.DatasetOps
 import DimModel.Proofs.C14
+import DimModel.Proofs.C14Ops
 namespace DimModel
 open Lib
 
@@ -389,6 +390,628 @@ example : ∃ out, takeAxisPosDs exDs "x" [2, 0] = .ok out ∧ out.keys = ["a", 
     have := hin (by simp [exA, DimArray.dims, exX])
     rw [hpos] at this
     exact ⟨r, hr, this⟩
+
+/-! ### round 5: reductions, arithmetic, stack_ds / concatenate_ds (the operations that re-assemble a Dataset with
+`Dataset(dict)` / `__setitem__`)
+
+Vocabulary (`DimModel/Proofs/C14Ops.lean`): `SameVar r v` - the stored variable `r` is the assigned value `v`: same
+dimension names, labels, values, value kind and metadata (what `__setitem__` replaces is the identity of the axis
+objects; when the axes of `v` already are the Dataset's, `r = v`). -/
+
+/-- REDUCTIONS, GENERIC FORM (`Dataset._apply_dimarray_axis(funcname, axis=name)`), for any DimArray method `f` whose
+result carries axes of its argument (every along-axis transformation does: it removes or keeps the axis) and has
+distinct dimension names.  On a good Dataset, when the call succeeds:
+* `name` is a dimension of the Dataset (otherwise `self.axes[axis]` raises);
+* the keys and their order are kept; **the Dataset's metadata is NOT kept** (`Dataset(d)` is a fresh Dataset);
+* every variable that has the dimension is `f(variable)`, the others are unchanged (the very same value);
+* the result again has shared, own axes; its axes are axis objects of the input Dataset - exactly those still in
+  use by a variable -, listed in the order of first appearance in the variables. -/
+theorem applyAxis_spec {α : Type} (nan : α) (ds out : Ds α) (name : String)
+    (f : DimArray α → Except Err (DimArray α)) (hg : GoodDs ds)
+    (hf : ∀ k v, (k, v) ∈ ds.vars → name ∈ v.dims → ∀ r, f v = .ok r → (∀ ax ∈ r.axes, ax ∈ v.axes) ∧ r.dims.Nodup)
+    (h : applyAxis nan ds name f = .ok out) :
+    name ∈ ds.dims ∧ out.keys = ds.keys ∧ out.attrs = [] ∧ SharedAxes out ∧ OwnAxes out ∧
+    (∀ k v, (k, v) ∈ ds.vars → ∃ r, (k, r) ∈ out.vars ∧ (name ∈ v.dims → f v = .ok r) ∧ (name ∉ v.dims → r = v)) ∧
+    (∀ e ∈ out.axes, e ∈ ds.axes) ∧ (∀ e, e ∈ out.axes ↔ ∃ kv ∈ out.vars, e ∈ kv.2.axes) ∧
+    out.dims = getDims (out.vars.map (·.2.axes)) := by
+  obtain ⟨hin, hat, hsh, hown, hdm, hax, hrel⟩ := applyAxis_closed nan ds out name f hg.2.1 hg.1.2.2
+    (by
+      intro e he
+      obtain ⟨kv, hkv, hm⟩ := (axes_iff_used hg.1 hg.2.1 e).1 he
+      exact (hg.2.2.2 kv hkv).2.2 e hm)
+    hg.2.2.1 (fun kv hkv => (hg.2.2.2 kv hkv).1) (fun kv hkv => hf kv.1 kv.2 hkv) h
+  refine ⟨hin, ?_, hat, hsh, hown, ?_, hax, axes_iff_used hsh hown, hdm⟩
+  · exact (hrel.map_eq (·.1) (·.1) fun a b hab => hab.1.symm).symm
+  · intro k v hkv
+    obtain ⟨kv', hkv', h1, h2, h3⟩ := hrel.mem_left (k, v) hkv
+    refine ⟨kv'.2, ?_, h2, h3⟩
+    have : kv' = (k, kv'.2) := Prod.ext h1 rfl
+    rw [← this]
+    exact hkv'
+
+/-- PRESERVATION for `_apply_dimarray_axis`: when moreover the values of `f(variable)` have the shape its axes
+announce, the result is again a good Dataset -/
+theorem applyAxis_good {α : Type} (nan : α) (ds out : Ds α) (name : String)
+    (f : DimArray α → Except Err (DimArray α)) (hg : GoodDs ds)
+    (hf : ∀ k v, (k, v) ∈ ds.vars → name ∈ v.dims → ∀ r, f v = .ok r →
+      (∀ ax ∈ r.axes, ax ∈ v.axes) ∧ r.dims.Nodup ∧ r.vals.shape = r.axes.map (·.size))
+    (h : applyAxis nan ds name f = .ok out) : GoodDs out := by
+  obtain ⟨_, hk, _, hsh, hown, hv, _, _, _⟩ := applyAxis_spec nan ds out name f hg
+    (fun k v hkv hm r hr => ⟨(hf k v hkv hm r hr).1, (hf k v hkv hm r hr).2.1⟩) h
+  refine ⟨hsh, hown, hk ▸ hg.2.2.1, ?_⟩
+  intro kv hkv
+  obtain ⟨v0, hkv0⟩ := var_of_key (l := ds.vars) hk hkv
+  obtain ⟨r, hr, h1, h2⟩ := hv kv.1 v0 hkv0
+  have hnd : (out.vars.map (·.1)).Nodup := by
+    have := hg.2.2.1
+    rw [← hk] at this
+    exact this
+  have hrk : r = kv.2 := value_unique hnd hr hkv
+  subst hrk
+  by_cases hm : name ∈ v0.dims
+  · obtain ⟨ha, hn, hs⟩ := hf kv.1 v0 hkv0 hm _ (h1 hm)
+    exact ⟨hn, hs, fun ax hax => (hg.2.2.2 _ hkv0).2.2 ax (ha ax hax)⟩
+  · rw [h2 hm]
+    exact hg.2.2.2 _ hkv0
+
+/-- REDUCTIONS (`Dataset.mean / std / var / median / sum (axis=name)`): on a good Dataset, when the call succeeds
+* `name` was a dimension of the Dataset and is not a dimension of the result: the axes of the result are exactly
+  the other axes of the Dataset (the same objects; listed in the order of first appearance in the variables);
+* keys and their order are kept; the Dataset's metadata is dropped;
+* every variable that has the dimension is the DimArray reduction (`Lib.reduceAxis`, the C08 mirror) of that
+  variable along `name` - a scalar result (1-D variable) being stored as the 0-d `DimArray(scalar)`, without
+  metadata -, the others are unchanged;
+* the result is again a good Dataset (shared, own axes; distinct keys; well-formed variables). -/
+theorem reduceDs_spec {α : Type} (nan : α) (red : List α → α) (ds out : Ds α) (name : String) (hg : GoodDs ds)
+    (h : reduceDs nan red ds name = .ok out) :
+    name ∈ ds.dims ∧ name ∉ out.dims ∧ (∀ e, e ∈ out.axes ↔ e ∈ ds.axes ∧ e.name ≠ name) ∧
+    out.dims = getDims (out.vars.map (·.2.axes)) ∧
+    out.keys = ds.keys ∧ out.attrs = [] ∧ GoodDs out ∧
+    ∀ k v, (k, v) ∈ ds.vars → ∃ r, (k, r) ∈ out.vars ∧
+      (name ∈ v.dims → ∃ s, reduceAxis red v (.one (.name name)) = .ok s ∧
+        r = match s with
+            | .inl c => scalarVar c v.vkind
+            | .inr a => a) ∧
+      (name ∉ v.dims → r = v) := by
+  have hf : ∀ k v, (k, v) ∈ ds.vars → name ∈ v.dims → ∀ r, reduceVarDs red name v = .ok r →
+      (∀ ax ∈ r.axes, ax ∈ v.axes) ∧ r.dims.Nodup ∧ r.vals.shape = r.axes.map (·.size) := by
+    intro k v hkv hm r hr
+    rw [reduceVarDs_of_mem red name v hm] at hr
+    rw [← Except.ok.inj hr]
+    exact ⟨reducedVar_axes_mem red name v, (reducedVar_dims red name v (hg.2.2.2 (k, v) hkv).1).1,
+      reducedVar_shape red name v (hg.2.2.2 (k, v) hkv).2.1⟩
+  have hgood := applyAxis_good nan ds out name (reduceVarDs red name) hg hf h
+  obtain ⟨hin, hk, hat, hsh, hown, hv, hax, hiff, hdm⟩ := applyAxis_spec nan ds out name (reduceVarDs red name) hg
+    (fun k v hkv hm r hr => ⟨(hf k v hkv hm r hr).1, (hf k v hkv hm r hr).2.1⟩) h
+  -- no variable of the result has the dimension
+  have hnone : ∀ kv ∈ out.vars, name ∉ kv.2.dims := by
+    intro kv hkv
+    obtain ⟨v0, hkv0⟩ := var_of_key (l := ds.vars) hk hkv
+    obtain ⟨r, hr, h1, h2⟩ := hv kv.1 v0 hkv0
+    have hrk : r = kv.2 := value_unique hgood.2.2.1 hr hkv
+    subst hrk
+    by_cases hm : name ∈ v0.dims
+    · have := h1 hm
+      rw [reduceVarDs_of_mem red name v0 hm] at this
+      rw [← Except.ok.inj this]
+      exact (reducedVar_dims red name v0 (hg.2.2.2 _ hkv0).1).2
+    · rw [h2 hm]; exact hm
+  have hnot : name ∉ out.dims := by
+    intro hmem
+    obtain ⟨e, he, hn⟩ := List.mem_map.1 hmem
+    obtain ⟨kv, hkv, hm⟩ := hsh.2.1 e he
+    exact hnone kv hkv (hn ▸ hm)
+  refine ⟨hin, hnot, ?_, hdm, hk, hat, hgood, ?_⟩
+  · intro e
+    constructor
+    · intro he
+      exact ⟨hax e he, fun hn => hnot (hn ▸ List.mem_map_of_mem he)⟩
+    · rintro ⟨he, hne⟩
+      obtain ⟨kv0, hkv0, hm0⟩ := (axes_iff_used hg.1 hg.2.1 e).1 he
+      obtain ⟨r, hr, h1, h2⟩ := hv kv0.1 kv0.2 hkv0
+      refine (hiff e).2 ⟨_, hr, ?_⟩
+      by_cases hm : name ∈ kv0.2.dims
+      · have := h1 hm
+        rw [reduceVarDs_of_mem red name kv0.2 hm] at this
+        rw [← Except.ok.inj this]
+        exact reducedVar_keeps red name kv0.2 hm e hm0 hne
+      · rw [h2 hm]; exact hm0
+  · intro k v hkv
+    obtain ⟨r, hr, h1, h2⟩ := hv k v hkv
+    refine ⟨r, hr, ?_, h2⟩
+    intro hm
+    have h3 := h1 hm
+    unfold reduceVarDs at h3
+    cases hs : reduceAxis red v (.one (.name name)) with
+    | error e => simp [hs, bind, Except.bind] at h3
+    | ok s =>
+      refine ⟨s, rfl, ?_⟩
+      simp only [hs, bind, Except.bind] at h3
+      cases s with
+      | inl c => simpa [pure, Except.pure] using h3.symm
+      | inr a => simpa [pure, Except.pure] using h3.symm
+
+/-- a reduction along an existing dimension of a good Dataset always succeeds: the hypothesis of `reduceDs_spec`
+is satisfiable for every good Dataset and every one of its dimensions -/
+theorem reduceDs_ok {α : Type} (nan : α) (red : List α → α) (ds : Ds α) (name : String) (hg : GoodDs ds)
+    (hin : name ∈ ds.dims) : ∃ out, reduceDs nan red ds name = .ok out := by
+  apply applyAxis_ok nan ds name (reduceVarDs red name) hg.2.1 hg.1.2.2 _ hin
+  · intro kv _ hm
+    exact ⟨_, reduceVarDs_of_mem red name kv.2 hm, reducedVar_axes_mem red name kv.2⟩
+  · intro e he
+    obtain ⟨kv, hkv, hm⟩ := (axes_iff_used hg.1 hg.2.1 e).1 he
+    exact (hg.2.2.2 kv hkv).2.2 e hm
+
+/-! machine-checked counterexample to `applyAxis_spec` WITHOUT the hypothesis `hf` (for an arbitrary method `f`):
+`Dataset(dict)` re-links every value to the axes of the Dataset under construction, found by name and accepted
+when the labels agree.  A method that returns, for the variable `c`, an axis `x` of another kind (labels unchanged)
+is accepted, but the stored variable `c` carries the axis object first met (kind `i`), not the one `f(c)` has (kind
+`f`): the stored variable is not `f(variable)`.  Every along-axis method of dimarray returns axes of its argument,
+which is what `hf` asks. -/
+
+def cexA2 : DimArray Nat := { axes := [cexX, cexY], vals := NDArr.const [2, 2] 0 }
+def cexC2 : DimArray Nat := { axes := [cexX, cexY], vals := NDArr.const [2, 2] 0, attrs := [("m", 1)] }
+def cexDs2 : Ds Nat := { axes := [cexX, cexY], vars := [("a", cexA2), ("c", cexC2)] }
+/-- drops the dimension `y`; for a variable with metadata, also changes the kind of the remaining axes -/
+def cexF (v : DimArray Nat) : Except Err (DimArray Nat) :=
+  .ok { axes := (v.axes.filter (·.name != "y")).map fun ax => if v.attrs.isEmpty then ax else { ax with kind := .f }
+        vals := NDArr.const [2] 0, attrs := v.attrs }
+
+theorem cexDs2_good : GoodDs cexDs2 := by
+  refine ⟨⟨?_, ?_, ?_⟩, ?_, ?_, ?_⟩
+  · intro kv hkv ax hax
+    exact ⟨ax, by
+      simp only [cexDs2, List.mem_cons, List.not_mem_nil, or_false] at hkv
+      rcases hkv with rfl | rfl <;> simp [cexA2, cexC2, cexDs2] at hax ⊢ <;> simp [hax], rfl, rfl⟩
+  · intro e he
+    exact ⟨("a", cexA2), by simp [cexDs2], by
+      simp only [cexDs2, List.mem_cons, List.not_mem_nil, or_false] at he
+      rcases he with rfl | rfl <;> simp [cexA2, DimArray.dims]⟩
+  · simp [cexDs2, Ds.dims, cexX, cexY]
+  · intro kv hkv ax hax
+    simp only [cexDs2, List.mem_cons, List.not_mem_nil, or_false] at hkv
+    rcases hkv with rfl | rfl <;> simp [cexA2, cexC2, cexDs2] at hax ⊢ <;> simp [hax]
+  · simp [cexDs2, Ds.keys]
+  · intro kv hkv
+    simp only [cexDs2, List.mem_cons, List.not_mem_nil, or_false] at hkv
+    rcases hkv with rfl | rfl <;> simp [cexA2, cexC2, DimArray.dims, cexX, cexY, NDArr.const, Axis.size]
+
+theorem applyAxis_arbitrary_f_counterexample :
+    GoodDs cexDs2 ∧
+    ¬ ∀ out, applyAxis 0 cexDs2 "y" cexF = .ok out →
+        ∀ k v, (k, v) ∈ cexDs2.vars → ∃ r, (k, r) ∈ out.vars ∧ ("y" ∈ v.dims → cexF v = .ok r) := by
+  refine ⟨cexDs2_good, ?_⟩
+  intro H
+  have hax : varAxes (applyAxis 0 cexDs2 "y" cexF) = some [("a", [cexX]), ("c", [cexX])] := by decide
+  cases hto : applyAxis 0 cexDs2 "y" cexF with
+  | error e => rw [hto] at hax; cases hax
+  | ok out =>
+    rw [hto] at hax
+    obtain ⟨r, hr, hin⟩ := H out hto "c" cexC2 (by simp [cexDs2])
+    have hfr := hin (by simp [cexC2, DimArray.dims, cexX, cexY])
+    have hmem := List.mem_map_of_mem (f := fun kv : String × DimArray Nat => (kv.1, kv.2.axes)) hr
+    simp only [varAxes, Option.some.injEq] at hax
+    rw [hax] at hmem
+    have hra : r.axes = [cexX] := by
+      simp only [List.mem_cons, Prod.mk.injEq, List.not_mem_nil, or_false] at hmem
+      rcases hmem with ⟨h1, _⟩ | ⟨_, h2⟩
+      · exact absurd h1 (by decide)
+      · exact h2
+    have : r.axes = [{ cexX with kind := .f }] := by
+      rw [← Except.ok.inj hfr]
+      decide
+    rw [hra] at this
+    revert this
+    decide
+
+/-! #### arithmetic (`Dataset._binary_op`) -/
+
+/-- the variables the arithmetic theorems speak about: the inputs of the C04 / C06 theorems (`AlignInput`: distinct
+dimension names, unique labels, no `None` label, plain non-empty axes, values of the announced shape) with
+comma-free dimension names (a comma is the separator of grouped dimensions, see C04) -/
+def OpInput {α} (v : DimArray α) : Prop := AlignInput v ∧ ∀ d ∈ v.dims, ',' ∉ d.toList
+
+/-- DATASET op DATASET.  When `self op other` succeeds:
+* the result holds the keys of `self` that `other` has too, in `self`'s order (the other variables are dropped
+  silently), no Dataset metadata;
+* variable `k` of the result is `self[k] op other[k]` - the C04 mirror `Lib.operation`, which aligns the two
+  variables by name and label (`SameVar`: same dimensions, labels, values, kind, metadata; the axis objects are the
+  result Dataset's);
+* the result again has shared, own axes (every axis object comes from one of the per-variable results), distinct
+  keys, variables with distinct dimension names and values of the shape their labels announce.
+The Datasets need not be related: a variable-wise result whose axis disagrees with an earlier one makes
+`__setitem__` raise, and then there is no result. -/
+theorem binaryOpDs_spec {α : Type} (nan : α) (f : α → α → α) (self o out : Ds α)
+    (hk1 : self.keys.Nodup) (hk2 : o.keys.Nodup)
+    (hin1 : ∀ kv ∈ self.vars, OpInput kv.2) (hin2 : ∀ kv ∈ o.vars, OpInput kv.2)
+    (h : binaryOpDs nan f self (.ds o) = .ok out) :
+    out.keys = self.keys.filter (fun k => o.keys.contains k) ∧ out.attrs = [] ∧
+    SharedAxes out ∧ OwnAxes out ∧ out.keys.Nodup ∧
+    (∀ k v1 v2, (k, v1) ∈ self.vars → (k, v2) ∈ o.vars →
+      ∃ r res, (k, r) ∈ out.vars ∧ operation nan f v1 v2 = .ok res ∧ SameVar r res.1) ∧
+    (∀ e ∈ out.axes, ∃ k v1 v2 res, (k, v1) ∈ self.vars ∧ (k, v2) ∈ o.vars ∧
+      operation nan f v1 v2 = .ok res ∧ e ∈ res.1.axes) ∧
+    (∀ kv ∈ out.vars, kv.2.dims.Nodup ∧ kv.2.vals.shape = kv.2.axes.map (·.labels.length)) := by
+  have hres : ∀ k v1 v2 res, (k, v1) ∈ self.vars → (k, v2) ∈ o.vars → operation nan f v1 v2 = .ok res →
+      res.1.dims.Nodup := by
+    intro k v1 v2 res h1 h2 hop
+    obtain ⟨r, k1, k2⟩ := res
+    exact (operation_dims_cover nan f v1 v2 r k1 k2 (hin1 _ h1).1 (hin2 _ h2).1 (hin1 _ h1).2 (hin2 _ h2).2 hop).1
+  obtain ⟨hk, hat, hsh, hown, hv, hax⟩ := binaryOpDs_ds_core nan f self o out hk1 hk2 hres h
+  have hknd : out.keys.Nodup := hk ▸ hk1.sublist List.filter_sublist
+  refine ⟨hk, hat, hsh, hown, hknd, hv, hax, ?_⟩
+  intro kv hkv
+  have hkin : kv.1 ∈ self.keys.filter (fun k => o.keys.contains k) := hk ▸ List.mem_map_of_mem (f := (·.1)) hkv
+  obtain ⟨hk1', hk2'⟩ := List.mem_filter.1 hkin
+  obtain ⟨kv1, hkv1, he1⟩ := List.mem_map.1 hk1'
+  obtain ⟨kv2, hkv2, he2⟩ := List.mem_map.1 (by simpa using hk2' : kv.1 ∈ o.keys)
+  have h1 : (kv.1, kv1.2) ∈ self.vars := by rw [← he1]; exact hkv1
+  have h2 : (kv.1, kv2.2) ∈ o.vars := by rw [← he2]; exact hkv2
+  obtain ⟨r, res, hr, hop, hsame⟩ := hv kv.1 kv1.2 kv2.2 h1 h2
+  have : r = kv.2 := value_unique hknd hr hkv
+  subst this
+  obtain ⟨res1, k1, k2⟩ := res
+  obtain ⟨_, _, _, hshape, _⟩ := operation_general_spec nan f kv1.2 kv2.2 res1 k1 k2
+    (hin1 _ h1).1 (hin2 _ h2).1 (hin1 _ h1).2 (hin2 _ h2).2 hop
+  refine ⟨hsame.1 ▸ hres _ _ _ _ h1 h2 hop, ?_⟩
+  rw [hsame.2.2.1, hshape]
+  have := congrArg (List.map List.length) hsame.2.1
+  simp only [List.map_map] at this
+  exact this.symm
+
+/-- `Dataset op DimArray` (or an ndarray, a list): refused with an AssertionError - the Python code only combines a
+Dataset with a Dataset or a scalar -/
+theorem binaryOpDs_other {α : Type} (nan : α) (f : α → α → α) (self : Ds α) :
+    binaryOpDs nan f self .other = .error .assertion := rfl
+
+/-- DATASET op SCALAR on a good Dataset: every variable `k` of the result IS `self[k] op scalar` (the mirror
+`Lib.operationNd` of `operation` with a non-DimArray operand; the stored variable keeps the axes of `self[k]`,
+which are the Dataset's), same keys, the same axis objects (in the order of first appearance in the variables), no
+Dataset metadata (and, as for DimArrays, no variable metadata); the result is again a good Dataset. -/
+theorem binaryOpDs_scalar_spec {α : Type} (nan : α) (f : α → α → α) (self out : Ds α) (c : α) (hg : GoodDs self)
+    (h : binaryOpDs nan f self (.scalar c) = .ok out) :
+    out.keys = self.keys ∧ out.attrs = [] ∧ GoodDs out ∧ (∀ e, e ∈ out.axes ↔ e ∈ self.axes) ∧
+    ∀ k v, (k, v) ∈ self.vars → ∃ r, (k, r) ∈ out.vars ∧ operationNd f v (scalarNd c) false = .ok r := by
+  obtain ⟨hk, hat, hsh, hown, hv, hax⟩ := binaryOpDs_scalar_core f nan self out c hg.2.2.1
+    (fun kv hkv => (hg.2.2.2 kv hkv).1) h
+  have haxU : ∀ e ∈ out.axes, e ∈ self.axes := by
+    intro e he
+    obtain ⟨kv, hkv, hm⟩ := hax e he
+    exact hg.2.1 kv hkv e hm
+  -- the stored variable is the per-variable result itself
+  have hv' : ∀ k v, (k, v) ∈ self.vars → ∃ r, (k, r) ∈ out.vars ∧ operationNd f v (scalarNd c) false = .ok r := by
+    intro k v hkv
+    obtain ⟨r, res, hr, hop, hsame⟩ := hv k v hkv
+    have : r = res := sameVar_own self.axes hg.1.2.2 r res hsame
+      (fun a ha => haxU a (hown (k, r) hr a ha))
+      (fun a ha => hg.2.1 (k, v) hkv a ((operationNd_axes f v res _ _ hop).1 ▸ ha))
+    exact ⟨r, hr, this ▸ hop⟩
+  have hknd : out.keys.Nodup := hk ▸ hg.2.2.1
+  refine ⟨hk, hat, ⟨hsh, hown, hknd, ?_⟩, ?_, hv'⟩
+  · intro kv hkv
+    obtain ⟨v0, hkv0⟩ := var_of_key (l := self.vars) hk hkv
+    obtain ⟨r, hr, hop⟩ := hv' kv.1 v0 hkv0
+    have : r = kv.2 := value_unique hknd hr hkv
+    rw [this] at hop
+    obtain ⟨h1, _, _, h4⟩ := operationNd_axes f v0 kv.2 _ _ hop
+    refine ⟨?_, h4, ?_⟩
+    · show (kv.2.axes.map (·.name)).Nodup
+      rw [h1]; exact (hg.2.2.2 _ hkv0).1
+    · rw [h1]; exact (hg.2.2.2 _ hkv0).2.2
+  · intro e
+    refine ⟨haxU e, ?_⟩
+    intro he
+    obtain ⟨kv, hkv, hm⟩ := (axes_iff_used hg.1 hg.2.1 e).1 he
+    obtain ⟨r, hr, hop⟩ := hv' kv.1 kv.2 hkv
+    exact hown _ hr e ((operationNd_axes f kv.2 r _ _ hop).1 ▸ hm)
+
+/-! #### stack_ds / concatenate_ds (align=False) -/
+
+/-- STACK_DS.  When `stack_ds(datasets, axis, keys)` succeeds on a non-empty list of Datasets (the first with
+distinct keys):
+* the new dimension `name` (`_check_stack_axis` on the dimensions of all Datasets) is a dimension of none of them,
+  and every Dataset holds the keys of the first one (in any order);
+* the result holds the keys of the first Dataset, in its order, and no metadata;
+* variable `k` of the result is `stack([ds[k] for ds in datasets], axis=name, keys)` - the C12 mirror `Lib.stack`
+  (align=False), `gather datasets k` being the list of the variables `k`, one per Dataset, in order;
+* the result has shared, own axes, every axis object coming from one of the stacked variables; the stacked
+  variables have distinct dimension names, the first of which is `name`. -/
+theorem stackDs_spec {α : Type} [Inhabited α] (nan : α) (d0 : Ds α) (rest : List (Ds α)) (axis : Option String)
+    (keys : List Label) (kk : Kind) (out : Ds α) (hk : d0.keys.Nodup)
+    (h : stackDs nan (d0 :: rest) axis keys kk = .ok out) :
+    ∃ name, checkStackAxis axis (getDims ((d0 :: rest).map (·.axes))) = .ok name ∧
+      (∀ ds ∈ d0 :: rest, name ∉ ds.dims ∧ ds.keys.Perm d0.keys) ∧
+      out.keys = d0.keys ∧ out.attrs = [] ∧ SharedAxes out ∧ OwnAxes out ∧
+      (∀ k ∈ d0.keys, ∃ arrays s r, gather (d0 :: rest) k = .ok arrays ∧
+        Rel2 (fun ds a => (k, a) ∈ ds.vars) (d0 :: rest) arrays ∧
+        stack nan arrays (some name) keys kk false false = .ok s ∧ (k, r) ∈ out.vars ∧ SameVar r s ∧
+        s.dims.Nodup ∧ s.dims.head? = some name) ∧
+      (∀ e ∈ out.axes, ∃ k ∈ d0.keys, ∃ arrays s, gather (d0 :: rest) k = .ok arrays ∧
+        stack nan arrays (some name) keys kk false false = .ok s ∧ e ∈ s.axes) := by
+  rw [stackDs_eq] at h
+  cases hname : checkStackAxis axis (getDims ((d0 :: rest).map (·.axes))) with
+  | error e => rw [hname] at h; cases h
+  | ok name =>
+    rw [hname] at h
+    replace h : ((d0 :: rest).foldlM (stackChk name) none >>= fun variables =>
+        match variables with
+        | none => .error .type
+        | some vars =>
+          vars.foldlM (joinStep (fun arrays => stack nan arrays (some name) keys kk false false) (d0 :: rest)) {}) =
+        .ok out := h
+    cases hvars : (d0 :: rest).foldlM (stackChk name) none with
+    | error e => rw [hvars] at h; cases h
+    | ok variables =>
+      rw [hvars] at h
+      obtain ⟨rfl, hchk⟩ := stackChk_spec name d0 rest variables hvars
+      replace h : d0.keys.foldlM
+          (joinStep (fun arrays => stack nan arrays (some name) keys kk false false) (d0 :: rest)) {} = .ok out := h
+      obtain ⟨h1, h2, h3, h4, h5, h6⟩ := joinLoop_core _ (d0 :: rest) d0.keys out hk
+        (fun v _ arrays r _ hs => (stack_dims_nodup nan arrays name keys kk r hs).1) h
+      refine ⟨name, rfl, hchk, h1, h2, h3, h4, ?_, h6⟩
+      intro k hkm
+      obtain ⟨arrays, s, r, hg, hs, hr, hsame⟩ := h5 k hkm
+      have hd := stack_dims_nodup nan arrays name keys kk s hs
+      exact ⟨arrays, s, r, hg, gather_rel _ _ _ hg, hs, hr, hsame, hd.1, hd.2.1⟩
+
+/-- CONCATENATE_DS.  When `concatenate_ds(datasets, axis)` succeeds on a non-empty list of Datasets (the first with
+distinct keys and variables with distinct dimension names):
+* every Dataset holds the keys of the first one; the result holds them in the first one's order, no metadata;
+* variable `k` of the result is `concatenate([ds[k] for ds in datasets], axis)` - the C12 mirror `Lib.concatenate`
+  (align=False); it lists the dimensions of the first Dataset's variable `k`.  In particular EVERY variable must
+  have the dimension: a variable that lacks it makes `concatenate` raise (`concatenateDs_lacking`), and an integer
+  `axis` is a position in each variable, not in the Dataset;
+* the result has shared, own axes, every axis object coming from one of the concatenated variables. -/
+theorem concatenateDs_spec {α : Type} (nan : α) (d0 : Ds α) (rest : List (Ds α)) (axis : DimKey) (out : Ds α)
+    (hk : d0.keys.Nodup) (hnd : ∀ kv ∈ d0.vars, kv.2.dims.Nodup)
+    (h : concatenateDs nan (d0 :: rest) axis = .ok out) :
+    (∀ ds ∈ d0 :: rest, ds.keys.Perm d0.keys) ∧
+    out.keys = d0.keys ∧ out.attrs = [] ∧ SharedAxes out ∧ OwnAxes out ∧
+    (∀ k v0, (k, v0) ∈ d0.vars → ∃ arrays s r, gather (d0 :: rest) k = .ok arrays ∧
+      Rel2 (fun ds a => (k, a) ∈ ds.vars) (d0 :: rest) arrays ∧
+      concatenate nan arrays axis false false = .ok s ∧ (k, r) ∈ out.vars ∧ SameVar r s ∧ s.dims = v0.dims) ∧
+    (∀ e ∈ out.axes, ∃ k ∈ d0.keys, ∃ arrays s, gather (d0 :: rest) k = .ok arrays ∧
+      concatenate nan arrays axis false false = .ok s ∧ e ∈ s.axes) := by
+  rw [concatenateDs_eq] at h
+  cases hvars : (d0 :: rest).foldlM catChk none with
+  | error e => rw [hvars] at h; cases h
+  | ok variables =>
+    rw [hvars] at h
+    obtain ⟨rfl, hchk⟩ := catChk_spec d0 rest variables hvars
+    replace h : d0.keys.foldlM
+        (joinStep (fun arrays => concatenate nan arrays axis false false) (d0 :: rest)) {} = .ok out := h
+    -- the first gathered variable is the first Dataset's
+    have hhead : ∀ k arrays, gather (d0 :: rest) k = .ok arrays → ∃ a0 t, arrays = a0 :: t ∧ (k, a0) ∈ d0.vars := by
+      intro k arrays hg
+      have := gather_rel _ _ _ hg
+      cases this with
+      | cons h1 _ => exact ⟨_, _, rfl, h1⟩
+    have hdims : ∀ k arrays s, gather (d0 :: rest) k = .ok arrays →
+        concatenate nan arrays axis false false = .ok s → ∃ a0, (k, a0) ∈ d0.vars ∧ s.dims = a0.dims := by
+      intro k arrays s hg hs
+      obtain ⟨a0, t, rfl, h0⟩ := hhead k arrays hg
+      exact ⟨a0, h0, concatenate_dims nan a0 t axis s hs⟩
+    obtain ⟨h1, h2, h3, h4, h5, h6⟩ := joinLoop_core _ (d0 :: rest) d0.keys out hk
+      (fun v _ arrays r hg hs => by
+        obtain ⟨a0, h0, hd⟩ := hdims v arrays r hg hs
+        rw [hd]; exact hnd _ h0) h
+    refine ⟨hchk, h1, h2, h3, h4, ?_, h6⟩
+    intro k v0 hkv0
+    obtain ⟨arrays, s, r, hg, hs, hr, hsame⟩ := h5 k (List.mem_map_of_mem (f := (·.1)) hkv0)
+    obtain ⟨a0, h0, hd⟩ := hdims k arrays s hg hs
+    have : a0 = v0 := value_unique hk h0 hkv0
+    subst this
+    exact ⟨arrays, s, r, hg, gather_rel _ _ _ hg, hs, hr, hsame, hd⟩
+
+/-- VARIABLES LACKING THE DIMENSION: `concatenate_ds` along a dimension (given by name) that some variable of the
+first Dataset does not have never succeeds - the per-variable `concatenate` raises (the docstring's "will raise an
+error if variables are there which do not contain the required dimension") -/
+theorem concatenateDs_lacking {α : Type} (nan : α) (d0 : Ds α) (rest : List (Ds α)) (name : String)
+    (hk : d0.keys.Nodup) (hnd : ∀ kv ∈ d0.vars, kv.2.dims.Nodup) (k : String) (v0 : DimArray α)
+    (hkv : (k, v0) ∈ d0.vars) (hlack : name ∉ v0.dims) :
+    ¬ ∃ out, concatenateDs nan (d0 :: rest) (.name name) = .ok out := by
+  rintro ⟨out, h⟩
+  obtain ⟨_, _, _, _, _, hv, _⟩ := concatenateDs_spec nan d0 rest (.name name) out hk hnd h
+  obtain ⟨arrays, s, r, _, hrel, hs, _⟩ := hv k v0 hkv
+  cases hrel with
+  | cons h1 _ =>
+    have := value_unique hk h1 hkv
+    subst this
+    rw [concatenate_name_missing nan _ _ name hlack] at hs
+    cases hs
+
+/-! #### copy -/
+
+/-- COPY (`Dataset.copy()` = `Dataset({k: v})` + the metadata): on a good Dataset it always succeeds and returns
+the same variables (keys, order, values, axes, metadata), the same set of axis objects and the metadata (for
+distinct metadata keys, as in a dict) - a good Dataset again.  The axes are listed in the order of first appearance
+in the variables, which need NOT be the order of the original (`copy_reorders_axes`). -/
+theorem copyDs_spec {α : Type} (nan : α) (ds : Ds α) (hg : GoodDs ds) (hat : (ds.attrs.map (·.1)).Nodup) :
+    ∃ out, copyDs nan ds = .ok out ∧ out.vars = ds.vars ∧ out.attrs = ds.attrs ∧ GoodDs out ∧
+      (∀ e, e ∈ out.axes ↔ e ∈ ds.axes) ∧ out.dims = getDims (ds.vars.map (·.2.axes)) := by
+  have hpl : ∀ e ∈ ds.axes, e.members = [] := by
+    intro e he
+    obtain ⟨kv, hkv, hm⟩ := (axes_iff_used hg.1 hg.2.1 e).1 he
+    exact (hg.2.2.2 kv hkv).2.2 e hm
+  obtain ⟨o2, ho2⟩ := fromVars_own_ok nan ds.axes hg.1.2.2 hpl ds.vars hg.2.1
+  obtain ⟨hv, hat2, hsh, hown, hdm, hax⟩ := fromVars_own nan ds.axes hg.1.2.2 hpl ds.vars o2 hg.2.1 hg.2.2.1
+    (fun kv hkv => (hg.2.2.2 kv hkv).1) ho2
+  refine ⟨{ o2 with attrs := Attrs.update o2.attrs ds.attrs }, ?_, hv, ?_, ⟨?_, ?_, ?_, ?_⟩, ?_, hdm⟩
+  · unfold copyDs
+    rw [ho2]
+    rfl
+  · show Attrs.update o2.attrs ds.attrs = ds.attrs
+    rw [hat2]
+    exact attrs_update_nil ds.attrs hat
+  · exact hsh
+  · exact hown
+  · show (o2.vars.map (·.1)).Nodup
+    rw [hv]; exact hg.2.2.1
+  · intro kv hkv
+    exact hg.2.2.2 kv (hv ▸ hkv)
+  · intro e
+    refine ⟨hax e, ?_⟩
+    intro he
+    obtain ⟨kv, hkv, hm⟩ := (axes_iff_used hg.1 hg.2.1 e).1 he
+    exact hown kv (hv ▸ hkv) e hm
+
+/-! FINDING (minor): `copy` lists the axes in the order of first appearance in the variables, so the copy of a good
+Dataset whose axes are listed otherwise has its axes in another order - in dimarray `ds.copy() == ds` is then
+`False` (`Dataset.__eq__` compares the lists of axes).  Here: axes `[x, y]`, variables `a` over `(y, x)`, `c` over
+`(x)`; the copy lists `[y, x]`. -/
+def exC3 : DimArray Int := { axes := [exX], vals := NDArr.ofFlat [3] [100, 200, 300], vkind := .i }
+def exB3 : DimArray Int := { axes := [exY], vals := NDArr.ofFlat [2] [70, 80], vkind := .i }
+def exDs3 : Ds Int := { axes := [exX, exY], vars := [("c", exC3), ("b", exB3)] }
+def exA5 : DimArray Int := { axes := [exY, exX], vals := NDArr.ofFlat [2, 3] [1, 2, 3, 4, 5, 6], vkind := .i }
+def exDs5 : Ds Int := { axes := [exX, exY], vars := [("a", exA5), ("c", exC3)] }
+
+theorem exDs5_good : GoodDs exDs5 := by
+  refine ⟨⟨?_, ?_, ?_⟩, ?_, ?_, ?_⟩
+  · intro kv hkv ax hax
+    refine ⟨ax, ?_, rfl, rfl⟩
+    simp only [exDs5, List.mem_cons, List.not_mem_nil, or_false] at hkv
+    rcases hkv with rfl | rfl
+    · simp only [exA5, List.mem_cons, List.not_mem_nil, or_false] at hax
+      rcases hax with rfl | rfl <;> simp [exDs5]
+    · simp only [exC3, List.mem_cons, List.not_mem_nil, or_false] at hax
+      subst hax
+      simp [exDs5]
+  · intro e he
+    exact ⟨("a", exA5), by simp [exDs5], by
+      simp only [exDs5, List.mem_cons, List.not_mem_nil, or_false] at he
+      rcases he with rfl | rfl <;> simp [exA5, DimArray.dims]⟩
+  · simp [exDs5, Ds.dims, exX, exY]
+  · intro kv hkv ax hax
+    simp only [exDs5, List.mem_cons, List.not_mem_nil, or_false] at hkv
+    rcases hkv with rfl | rfl
+    · simp only [exA5, List.mem_cons, List.not_mem_nil, or_false] at hax
+      rcases hax with rfl | rfl <;> simp [exDs5]
+    · simp only [exC3, List.mem_cons, List.not_mem_nil, or_false] at hax
+      subst hax
+      simp [exDs5]
+  · simp [exDs5, Ds.keys]
+  · intro kv hkv
+    simp only [exDs5, List.mem_cons, List.not_mem_nil, or_false] at hkv
+    rcases hkv with rfl | rfl
+    · simp [exA5, DimArray.dims, exX, exY, NDArr.ofFlat, Axis.size]
+    · simp [exC3, DimArray.dims, exX, NDArr.ofFlat, Axis.size]
+
+theorem copy_reorders_axes :
+    GoodDs exDs5 ∧ ∃ out, copyDs 0 exDs5 = .ok out ∧ out.dims = ["y", "x"] ∧ exDs5.dims = ["x", "y"] := by
+  refine ⟨exDs5_good, ?_⟩
+  obtain ⟨out, hout, _, _, _, _, hd⟩ := copyDs_spec 0 exDs5 exDs5_good (by decide)
+  exact ⟨out, hout, by rw [hd]; decide, by decide⟩
+
+/-! #### non-vacuity of the round-5 theorems: concrete Datasets (`exDs` above: `a` over (x, y), `b` over (y) with
+metadata, Dataset metadata; `exDs3`: same axes, variables `c` over (x) and `b` over (y)) -/
+
+
+/-- keys of a result, for the `decide` checks below -/
+def okKeys (r : Except Err (Ds Int)) : Option (List String) :=
+  match r with
+  | .ok o => some o.keys
+  | .error _ => none
+
+theorem okKeys_some {r : Except Err (Ds Int)} {ks : List String} (h : okKeys r = some ks) : ∃ out, r = .ok out := by
+  cases r with
+  | error e => cases h
+  | ok o => exact ⟨o, rfl⟩
+
+def exSum (l : List Int) : Int := l.foldl (· + ·) 0
+
+/-- `reduceDs_spec` on the concrete Dataset: `ds.sum(axis="x")` succeeds, drops `x` and the Dataset metadata, keeps
+the keys, leaves `b` (no dimension `x`) as it is - with its metadata - and stores the reduction of `a` -/
+example : ∃ out, reduceDs 0 exSum exDs "x" = .ok out ∧ out.keys = ["a", "b"] ∧ out.attrs = [] ∧ "x" ∉ out.dims ∧
+    GoodDs out ∧ ("b", exB) ∈ out.vars ∧
+    ∃ r, ("a", r) ∈ out.vars ∧ reduceAxis exSum exA (.one (.name "x")) = .ok (.inr r) := by
+  obtain ⟨out, hout⟩ := reduceDs_ok 0 exSum exDs "x" exDs_good (by simp [exDs, Ds.dims, exX])
+  obtain ⟨_, h2, _, _, h5, h6, h7, h8⟩ := reduceDs_spec 0 exSum exDs out "x" exDs_good hout
+  refine ⟨out, hout, h5, h6, h2, h7, ?_, ?_⟩
+  · obtain ⟨r, hr, _, hnot⟩ := h8 "b" exB (by simp [exDs])
+    rw [hnot (by simp [exB, DimArray.dims, exY])] at hr
+    exact hr
+  · obtain ⟨r, hr, hin, _⟩ := h8 "a" exA (by simp [exDs])
+    obtain ⟨s, hs, hrs⟩ := hin (by simp [exA, DimArray.dims, exX])
+    refine ⟨r, hr, ?_⟩
+    rw [hs]
+    cases s with
+    | inl c =>
+      exfalso
+      have : reduceAxis exSum exA (.one (.name "x")) = .ok (.inr (reducedVar exSum "x" exA)) := by
+        simp [reduceAxis, dealWithAxis, reducedVar, exA, DimArray.dims, DimArray.ndim, exX, exY, bind, Except.bind,
+          pure, Except.pure]
+      rw [this] at hs
+      cases hs
+    | inr a => rw [hrs]
+
+theorem exDs_opInput : ∀ kv ∈ exDs.vars, OpInput kv.2 := by
+  intro kv hkv
+  simp only [exDs, List.mem_cons, List.not_mem_nil, or_false] at hkv
+  rcases hkv with rfl | rfl <;> (unfold OpInput AlignInput; decide)
+
+theorem exDs3_opInput : ∀ kv ∈ exDs3.vars, OpInput kv.2 := by
+  intro kv hkv
+  simp only [exDs3, List.mem_cons, List.not_mem_nil, or_false] at hkv
+  rcases hkv with rfl | rfl <;> (unfold OpInput AlignInput; decide)
+
+/-- `binaryOpDs_spec` on concrete Datasets with partially overlapping keys: `exDs + exDs3` succeeds, holds only the
+common key `b` (the variables `a` and `c` are dropped), and `b` is `exB + exB3` -/
+example : ∃ out, binaryOpDs 0 (· + ·) exDs (.ds exDs3) = .ok out ∧ out.keys = ["b"] ∧ SharedAxes out ∧
+    ∃ r res, ("b", r) ∈ out.vars ∧ operation 0 (· + ·) exB exB3 = .ok res ∧ SameVar r res.1 := by
+  obtain ⟨out, hout⟩ := okKeys_some (r := binaryOpDs 0 (· + ·) exDs (.ds exDs3)) (ks := ["b"]) (by decide)
+  obtain ⟨h1, _, h3, _, _, h6, _⟩ := binaryOpDs_spec 0 (· + ·) exDs exDs3 out (by decide) (by decide)
+    exDs_opInput exDs3_opInput hout
+  refine ⟨out, hout, by rw [h1]; decide, h3, ?_⟩
+  exact h6 "b" exB exB3 (by simp [exDs]) (by simp [exDs3])
+
+/-- `binaryOpDs_scalar_spec` on the concrete Dataset -/
+example : ∃ out, binaryOpDs 0 (· + ·) exDs (.scalar 5) = .ok out ∧ out.keys = ["a", "b"] ∧ GoodDs out ∧
+    ∃ r, ("a", r) ∈ out.vars ∧ operationNd (· + ·) exA (scalarNd 5) false = .ok r := by
+  obtain ⟨out, hout⟩ := okKeys_some (r := binaryOpDs 0 (· + ·) exDs (.scalar 5)) (ks := ["a", "b"]) (by decide)
+  obtain ⟨h1, _, h3, _, h5⟩ := binaryOpDs_scalar_spec 0 (· + ·) exDs out 5 exDs_good hout
+  exact ⟨out, hout, h1, h3, h5 "a" exA (by simp [exDs])⟩
+
+/-- `stackDs_spec` on two concrete Datasets (the second lists its variables in the other order): `stack_ds` along the
+new dimension `s` succeeds, keeps the keys of the first, and `b` is the stack of the two variables `b` -/
+def exDs4 : Ds Int := { axes := [exX, exY], vars := [("b", exB3), ("a", exA)] }
+
+example : ∃ out, stackDs 0 [exDs, exDs4] (some "s") [.num 0, .num 1] .i = .ok out ∧ out.keys = ["a", "b"] ∧
+    SharedAxes out ∧ OwnAxes out ∧
+    ∃ s r, stack 0 [exB, exB3] (some "s") [.num 0, .num 1] .i false false = .ok s ∧ ("b", r) ∈ out.vars ∧
+      SameVar r s := by
+  obtain ⟨out, hout⟩ := okKeys_some (r := stackDs 0 [exDs, exDs4] (some "s") [.num 0, .num 1] .i)
+    (ks := ["a", "b"]) (by decide)
+  obtain ⟨name, hname, _, h1, _, h3, h4, h5, _⟩ := stackDs_spec 0 exDs [exDs4] (some "s") [.num 0, .num 1] .i out
+    (by decide) hout
+  have hn : name = "s" := by
+    have : checkStackAxis (some "s") (getDims ([exDs, exDs4].map (·.axes))) = .ok "s" := by
+      have hc : (getDims ([exDs, exDs4].map (·.axes))).contains "s" = false := by decide
+      simp only [checkStackAxis, hc, Bool.false_eq_true, if_false]
+    rw [this] at hname
+    exact (Except.ok.inj hname).symm
+  subst hn
+  obtain ⟨arrays, s, r, hg, _, hs, hr, hsame, _⟩ := h5 "b" (by decide)
+  have : gather [exDs, exDs4] "b" = .ok [exB, exB3] := rfl
+  rw [this] at hg
+  cases hg
+  exact ⟨out, hout, h1, h3, h4, s, r, hs, hr, hsame⟩
+
+/-- `concatenateDs_spec` on two concrete Datasets: along `y` (which every variable has) `concatenate_ds` succeeds;
+along `x` (which `b` lacks) it does not -/
+example : (∃ out, concatenateDs 0 [exDs, exDs4] (.name "y") = .ok out ∧ out.keys = ["a", "b"] ∧ SharedAxes out ∧
+      ∃ s r, concatenate 0 [exB, exB3] (.name "y") false false = .ok s ∧ ("b", r) ∈ out.vars ∧ SameVar r s) ∧
+    ¬ ∃ out, concatenateDs 0 [exDs, exDs4] (.name "x") = .ok out := by
+  have hnd : ∀ kv ∈ exDs.vars, kv.2.dims.Nodup := fun kv hkv => (exDs_good.2.2.2 kv hkv).1
+  constructor
+  · obtain ⟨out, hout⟩ := okKeys_some (r := concatenateDs 0 [exDs, exDs4] (.name "y")) (ks := ["a", "b"]) (by decide)
+    obtain ⟨_, h1, _, h3, _, h5, _⟩ := concatenateDs_spec 0 exDs [exDs4] (.name "y") out (by decide) hnd hout
+    obtain ⟨arrays, s, r, hg, _, hs, hr, hsame, _⟩ := h5 "b" exB (by simp [exDs])
+    have : gather [exDs, exDs4] "b" = .ok [exB, exB3] := rfl
+    rw [this] at hg
+    cases hg
+    exact ⟨out, hout, h1, h3, s, r, hs, hr, hsame⟩
+  · exact concatenateDs_lacking 0 exDs [exDs4] "x" (by decide) hnd "b" exB (by simp [exDs])
+      (by simp [exB, DimArray.dims, exY])
 
 end DSV
 
